@@ -474,6 +474,24 @@ func vobRunACL(tr *TranslationInterceptor, acl *AccessControlInterceptor, ob vob
 	return rec
 }
 
+// vobRunACLEmpty pushes an empty request of the obligation's method (no namespace named anywhere) through translation and
+// access control; the result is not recorded.
+func vobRunACLEmpty(tr *TranslationInterceptor, acl *AccessControlInterceptor, ob vobOblig) error {
+	m, err := vobNew(ob.Root.Type)
+	if err != nil {
+		return err
+	}
+	svc := "temporal.api.workflowservice.v1.WorkflowService"
+	if ob.Root.Service == "admin" {
+		svc = "temporal.server.api.adminservice.v1.AdminService"
+	}
+	info := &grpc.UnaryServerInfo{FullMethod: "/" + svc + "/" + ob.Root.Method}
+	_, err = tr.Intercept(context.Background(), m.Interface(), info, func(ctx context.Context, req any) (any, error) {
+		return acl.Intercept(ctx, req, info, func(ctx context.Context, req any) (any, error) { return nil, nil })
+	})
+	return err
+}
+
 func TestVerifSchemaObligations(t *testing.T) {
 	in := os.Getenv("VERIF_IN")
 	if in == "" {
@@ -524,6 +542,17 @@ func TestVerifSchemaObligations(t *testing.T) {
 			t.Fatalf("bad obligation: %v", err)
 		}
 		if ob.Mode == "acl" {
+			// the access-control interceptor must not remember anything about a method either: the first time a method is seen
+			// a request of it that names NO namespace goes through the same interceptors first
+			if pk := "acl|" + ob.Root.Service + "|" + ob.Root.Method; !primed[pk] {
+				primed[pk] = true
+				pm := ob
+				pm.Path, pm.Value = nil, ""
+				func() {
+					defer func() { _ = recover() }()
+					_ = vobRunACLEmpty(aclTr, acl, pm)
+				}()
+			}
 			vobTail, vobDirty, vobJSON = ob.Variant == "tail", false, ob.Variant == "json"
 			_ = enc.Encode(vobRunACL(aclTr, acl, ob))
 			vobTail, vobJSON = false, false
